@@ -293,7 +293,9 @@ impl Prop for Sessions {
                         break;
                     }
                 }
-                // update the clean history with the lines of this text
+            }
+            // update the clean history with the lines of this text (always - also when the comparison was skipped)
+            if acc.ok() {
                 for (l, slot) in lines.iter().zip(out.slots.iter()) {
                     let lhs = l.split_once('=').map(|(a, _)| a.trim().to_lowercase());
                     match (slot, lhs) {
@@ -389,6 +391,9 @@ pub fn regressions() -> Vec<SessionHistory> {
         // F40: a 3-line text, then a 1-line text
         SessionHistory { sessions: 1, ops: vec![(0, "x = 5\nx + 1\nx * 2".into()), (0, "x".into())], extra_execute: false, default_ctor: 0 },
         SessionHistory { sessions: 1, ops: vec![(0, "x = 5".into()), (0, "x + 1\nx * 2\nx = x + 1".into()), (0, "x\n\nx".into())], extra_execute: true, default_ctor: 0 },
+        // a text whose first line is a lone CR (a failing line that cannot be re-joined): the later texts still see x
+        SessionHistory { sessions: 1, ops: vec![(0, "\r\r\nx = 5".into()), (0, "10% of x".into())], extra_execute: false, default_ctor: 0 },
+        SessionHistory { sessions: 1, ops: vec![(0, "\r\r\nx = 2 * 3 usd".into()), (0, "x = x + 1 day".into())], extra_execute: false, default_ctor: 0 },
         // two sessions do not share variables
         SessionHistory { sessions: 2, ops: vec![(0, "x = 5".into()), (1, "x + 1".into()), (1, "x = 7".into()), (0, "x".into()), (1, "x".into())], extra_execute: false, default_ctor: 0 },
     ]
